@@ -42,8 +42,9 @@ for ID in "$@"; do
     BIN="$TGT/release/pvc-$GROUP"
   fi
   if [ "$ID" = "C17" ] && [ "$GROUP" != "hal" ]; then
-    SUB=C12; [ "$GROUP" = "ser" ] && SUB=C18
-    VERIF_AS_PROPERTY=C17 VERIF_FAIL_KINDS="scratch_overrun,stray_write" VERIF_ROOT="$OUT" VERIF_EVIDENCE_PART="$GROUP" "$BIN" "$SUB" --tier "$TIER" >"$OUT/$ID.out" 2>"$OUT/$ID.err"
+    SUB=C12; KINDS="scratch_overrun,stray_write"
+    [ "$GROUP" = "ser" ] && { SUB=C18; KINDS="$KINDS,inconsistent_after_ok"; }
+    VERIF_AS_PROPERTY=C17 VERIF_FAIL_KINDS="$KINDS" VERIF_ROOT="$OUT" VERIF_EVIDENCE_PART="$GROUP" "$BIN" "$SUB" --tier "$TIER" >"$OUT/$ID.out" 2>"$OUT/$ID.err"
   else
     VERIF_ROOT="$OUT" VERIF_EVIDENCE_PART="$GROUP" "$BIN" "$ID" --tier "$TIER" >"$OUT/$ID.out" 2>"$OUT/$ID.err"
   fi
